@@ -66,6 +66,11 @@ func runC13(c *Ctx) {
 	version := 1 + r.Intn(2)
 	codec := gen.Pick(r, []compress.Codec{&parquet.Uncompressed, &parquet.Snappy, &parquet.Zstd, &parquet.Gzip, &parquet.Lz4Raw})
 	opts := []parquet.WriterOption{parquet.DataPageVersion(version), parquet.Compression(codec), parquet.PageBufferSize(gen.Pick(r, []int{64, 256, 1024, 8192}))}
+	if c.Case%3 == 1 {
+		// files stamped by an application: checksums are checked whoever wrote the file
+		opts = append(opts, parquet.CreatedBy(gen.Pick(r, []string{"acme-etl", "parquet-mr", "x"}), "1.2.3", "deadbeef"))
+		c.Obs("files_with_application_created_by", 1)
+	}
 	desc := []string{fmt.Sprintf("v%d", version), codec.String()}
 	switch r.Intn(3) {
 	case 0:
